@@ -3,7 +3,7 @@
    explicit Panic outcome (nil dereference of a missing AST field, non-exhaustive type switch,
    index out of range after a skipped allotment clause, reconciler fuel), so "never panics" is a
    theorem about the model, not a by-product of totality. *)
-From NS Require Import Run NoPanicProofs.
+From NS Require Import Run NoPanicProofs Lexer Parser NestedParse.
 From NS Require Tables.
 
 (* for every complete AST (no nil node: what an error-free parse produces), every variables map
@@ -34,7 +34,14 @@ Theorem C12_metadata_fault : forall sb flag vs ty f rs account key msg,
   handle_origin sb flag vs ty f rs = Err (QueryMetadataError msg).
 Proof. exact meta_fault. Qed.
 
+(* "for every script that parses without errors": the hypothesis on the tree is discharged for every
+   text the reference parser accepts (its derivation has no nil node: Proofs/NestedParse.v) *)
+Theorem C12_no_panic_for_accepted_texts : forall text p raw sb flag,
+  parse_text text = Parsed p -> store_wellbehaved sb -> forall w, run_program p raw sb flag <> Panic w.
+Proof. intros text p raw sb flag H. exact (run_program_no_panic p raw sb flag (accepted_text_complete text p H)). Qed.
+
 Print Assumptions C12_no_panic.
+Print Assumptions C12_no_panic_for_accepted_texts.
 Print Assumptions C12_typed_error.
 Print Assumptions C12_balances_fault.
 
